@@ -147,7 +147,7 @@ func writeSeqs(name string, depth int, bufs []int) *explore.Scenario {
 							// every sequence is also checked with a final Flush
 							full := wcase{r, w, append(append([]wop{}, cur...), wop{Kind: "f"})}
 							st, k, m := runWrites(full)
-							c.Case(fmt.Sprint(r, w, cur), true, func() any { return full })
+							c.Case(fmt.Sprint(r, w, cur), len(cur) <= 3, func() any { return full }) // (longer sequences are counted as cases only: keeps the dedup table small)
 							c.Count(0, int64(len(full.Ops)))
 							if k != "" {
 								c.Fail(k+variant(r, w), m, full)
@@ -291,7 +291,7 @@ func readSide(n int) *explore.Scenario {
 
 func build(tier string) []*explore.Scenario {
 	if tier == "thorough" {
-		return []*explore.Scenario{writeSeqs("write-sequences(depth<=4,buf 1/16/64)", 4, []int{1, 16, 64}), writeSeqs("write-sequences(depth<=5,buf 4)", 5, []int{4}), readSide(12)}
+		return []*explore.Scenario{writeSeqs("write-sequences(depth<=4,buf 1/16/64)", 4, []int{1, 16, 64}), writeSeqs("write-sequences(depth<=4,buf 4/8)", 4, []int{4, 8}), readSide(12)}
 	}
 	return []*explore.Scenario{writeSeqs("write-sequences(depth<=3,buf 1/16/64)", 3, []int{1, 16, 64}), writeSeqs("write-sequences(depth<=4,buf 4)", 4, []int{4}), readSide(9)}
 }
